@@ -64,7 +64,10 @@ fn deliver(policy: &AdmissionPolicy<K>, hashes: Vec<u64>) {
 fn check_case(case: &Case, col: &Collector) {
     world::reset(WorldCfg { dash_single_shard: case.single_shard, ..WorldCfg::default() });
     let stats = Arc::new(ConcurrentStatsCounter::new());
-    let (policy, bg) = world::constructing(|| AdmissionPolicy::<K>::new(4096, CacheWeightConfig::new(16, 2, case.w), stats.clone()));
+    // `capacity` is a sizing hint only: the single-shard half of the table runs with a hint of 2, far below the number
+    // of residents, and must decide exactly like the other half
+    let capacity_hint = if case.single_shard { 2 } else { 16 };
+    let (policy, bg) = world::constructing(|| AdmissionPolicy::<K>::new(4096, CacheWeightConfig::new(capacity_hint, 2, case.w), stats.clone()));
     crate::verif_rt::sched::rt::settle(&bg);
     let deleted: Arc<Mutex<Vec<K>>> = Arc::new(Mutex::new(Vec::new()));
     let d2 = deleted.clone();
@@ -467,7 +470,7 @@ fn pipeline_oracle() -> SeqOracle {
     })
 }
 
-fn pipeline_spec(ctx: &Ctx, w: i64) -> SeqSpec {
+fn pipeline_spec(ctx: &Ctx, w: i64, capacity: usize) -> SeqSpec {
     let mut alphabet: Vec<Op> = Vec::new();
     for k in 1..=4u64 {
         alphabet.push(Op::Read { k, variant: ReadVariant::Get });
@@ -477,9 +480,10 @@ fn pipeline_spec(ctx: &Ctx, w: i64) -> SeqSpec {
     }
     alphabet.push(Op::Delete { k: 1 });
     SeqSpec {
-        name: format!("seq/admission-through-the-pipeline/W={}", w),
-        // buffer 1: every second hit hands a one-element buffer to the consumer; large window: no ageing in between
-        setup: Setup { weight: w, buffer: 1, counters: 256, ..Setup::default() },
+        name: format!("seq/admission-through-the-pipeline/W={}{}", w, if capacity == 8 { String::new() } else { format!("/capacity={}", capacity) }),
+        // buffer 1: every second hit hands a one-element buffer to the consumer; large window: no ageing in between;
+        // `capacity` is only a sizing hint: a value below the number of resident keys must not change any decision
+        setup: Setup { weight: w, buffer: 1, counters: 256, capacity, ..Setup::default() },
         world: Default::default(),
         prefix: vec![],
         alphabet,
@@ -614,9 +618,9 @@ pub fn def(ctx: &Ctx) -> PropertyDef {
             Ok(out)
         }),
     }];
-    for w in [3i64, 4] {
-        let name = pipeline_spec(ctx, w).name;
-        scenarios.push(seq_scenario(move |c| pipeline_spec(c, w), &name));
+    for (w, capacity) in [(3i64, 8usize), (4, 8), (4, 2)] {
+        let name = pipeline_spec(ctx, w, capacity).name;
+        scenarios.push(seq_scenario(move |c| pipeline_spec(c, w, capacity), &name));
     }
     for p in ilv_programs(ctx.quick()) {
         let nthreads = p.threads.len();
